@@ -58,6 +58,23 @@ def run(C, R):
         nfut = len(roles.futures)
         R.floor('node-bearing-futures[%s]' % cfg, nfut, 6 if cfg == 'none' else FUTURE_FLOOR)
         state_paths = {}
+        # ---------------- I0: a freshly constructed wait node is in the initial (unlinked, never polled) state
+        from common import constructor_state
+        n0 = 0
+        for sp in sorted(roles.state_structs):
+            for q, (_k, data) in sorted(roles.state_structs[sp]['queues'].items()):
+                nd = roles.node_data[data]
+                tab = TYPESTATE[sp][q]
+                initial = list(tab)[0]
+                if tab[initial] is not False:
+                    raise CheckerError('anchor=typestate-table: initial state %s of %s.%s is a linked state'
+                                       % (initial, sp, q))
+                exp = {nd['state_field']: ('variant', initial)}
+                if nd.get('task_field'):
+                    exp[nd['task_field']] = 'none'
+                constructor_state(R, E, F, data, exp, 'C01.I0')
+                n0 += 1
+        R.floor('C01.I0 node-constructors[%s]' % cfg, n0, QUEUE_FLOOR)
         # ---------------- I1 + I3
         for sp in sorted(roles.state_structs):
             for m in entry_methods(F, CG, sp):
